@@ -848,7 +848,27 @@ func (r *e1Run) snap(st e1Step) {
 		}
 		expectFold = append(expectFold, idx)
 	}
-	sr := n.snapshot(T, failAt, st.Skip)
+	// exactness of deletion is judged right after Snapshot() returned (raft persists the snapshot in another
+	// goroutine while the FSM goes on applying entries)
+	exactChecked, exactOK := false, true
+	between := func() {
+		exactChecked = true
+		remaining := n.irclogIndexes()
+		wantRemaining := idxs[len(expectFold):]
+		if fmt.Sprint(remaining) != fmt.Sprint(wantRemaining) {
+			exactOK = false
+			r.violate("C02", "fold-not-exact", "fold-not-exact", fmt.Sprintf("node %d: after Snapshot() at horizon end %v the log copy holds %v, expected exactly %v (before: %v)", n.idx, end.UTC(), remaining, wantRemaining, idxs))
+			return
+		}
+		if st.Mid > 0 && !st.Skip {
+			before := n.applied
+			r.applyOn(n, st.Mid)
+			if n.applied > before {
+				r.res.Add("entries_applied_during_persist", int64(n.applied-before))
+			}
+		}
+	}
+	sr := n.snapshotWith(T, failAt, st.Skip, between)
 	r.res.Add("snapshots_attempted", 1)
 	r.tr.Log("snap n%d frac=%d fold=%d err=%v persisted=%v", n.idx, st.Frac, len(expectFold), sr.err != nil, sr.persisted)
 	if sr.err != nil && !sr.persisted && sr.first == 0 && sr.last == 0 {
@@ -863,11 +883,10 @@ func (r *e1Run) snap(st e1Step) {
 		r.violate("C02", "wrong-horizon", "wrong-horizon", fmt.Sprintf("node %d: compaction at %v used horizon end %v, but session expiration in force is %v so inputs older than %v (and only those) may be folded", n.idx, T.UTC(), sr.end.UTC(), exp, end.UTC()))
 		return
 	}
-	// exactness of deletion
-	remaining := n.irclogIndexes()
-	wantRemaining := idxs[len(expectFold):]
-	if fmt.Sprint(remaining) != fmt.Sprint(wantRemaining) {
-		r.violate("C02", "fold-not-exact", "fold-not-exact", fmt.Sprintf("node %d: after Snapshot() at horizon end %v the log copy holds %v, expected exactly %v (before: %v)", n.idx, end.UTC(), remaining, wantRemaining, idxs))
+	if !exactChecked {
+		between()
+	}
+	if !exactOK {
 		return
 	}
 	if len(expectFold) > 0 {
